@@ -272,6 +272,50 @@ pub fn run_empty_and_truncated() -> Sweep {
     })
 }
 
+/// The geometry of one entry: its offset and count moved to and beyond the edges of the data section, in either header.
+pub fn run_entry_geometry() -> Sweep {
+    // three entries of different kinds; the data section ends with the text of the last one
+    let recs = [(1000u32, Val::str("name")), (1009, Val::Int32(vec![1, 2])), (1043, Val::Bin(vec![9, 8, 7])), (1117, Val::strs(&["a", "bc"])), (1001, Val::str("tail"))];
+    let base = RawHeader::layout(&recs);
+    let store_len = base.store.len() as i64;
+    let offs: Vec<i64> = vec![-2, -1, 0, 1, store_len - 5, store_len - 2, store_len - 1, store_len, store_len + 1, store_len + 16, 0x7fff_ffff, 0x8000_0000, 0xffff_ffff];
+    let counts: Vec<i64> = vec![-1, 0, 1, 2, 3, 5, 65_536];
+    let n_ent = base.entries.len() as u64;
+    let n = 2 * n_ent * (offs.len() * counts.len()) as u64 * 2;
+    Sweep::new("entry-geometry", format!("a header of five entries (STRING, INT32 ×2, BIN ×3, STRING_ARRAY ×2, STRING at the very end of the data section; {} bytes of data) as signature header and as main header: one entry's offset ∈ {{as laid out − 2 … , 0, 1, the last bytes of the data section, its size, beyond it, 2^31 ∓ 1, 2^32 − 1}} × count ∈ {{as laid out − 1, 0, 1, 2, 3, 5, 65 536}} × the data section with and without its final NUL: whatever the parser accepts must round-trip byte for byte and report true offsets", store_len), n, move |i, acc| {
+        acc.evals += 1;
+        let no_nul = i % 2 == 1;
+        let j = i / 2;
+        let in_sig = j % 2 == 1;
+        let j = j / 2;
+        let (e, oc) = ((j % n_ent) as usize, j / n_ent);
+        let (oi, ci) = ((oc % offs.len() as u64) as usize, (oc / offs.len() as u64) as usize);
+        let mut h = base.clone();
+        let laid = (h.entries[e].offset as i64, h.entries[e].count as i64);
+        // the first two offset digits are relative to the laid-out offset (−2 bytes, unchanged); offsets ≥ 2^31 are negative i32 values
+        let off = if oi == 0 { laid.0 - 2 } else if oi == 1 { laid.0 } else { offs[oi] };
+        let cnt = if ci == 0 { laid.1 - 1 } else { counts[ci] };
+        if off < 0 || cnt < 0 {
+            return;
+        }
+        h.entries[e].offset = off as u32 as i32;
+        h.entries[e].count = cnt as u32;
+        if no_nul {
+            h.store.pop();
+        }
+        let (x, _) = if in_sig { assemble(&RawLead::new("n"), &h, 0, &minimal_main(), b"pay") } else { assemble(&RawLead::new("n"), &minimal_sig(), 0, &h, b"pay") };
+        let case = || json!({"bytes_hex": vlib::hex(&x), "header": if in_sig { "signature" } else { "main" }, "entry": e, "tag": h.entries[e].tag, "offset": off, "count": cnt, "data_section_bytes": h.store.len(), "final_nul_removed": no_nul});
+        match oracle_roundtrip("entry-geometry", &x, i, &case, acc) {
+            Some(p) => {
+                acc.nontrivial += 1;
+                oracle_offsets("entry-geometry", &p, i, &case, acc);
+                acc.count("accepted");
+            }
+            None => acc.count("rejected by the parser (not judged)"),
+        }
+    })
+}
+
 /// The bytes between the sections: alignment padding removed or added, and inputs that start at a section boundary.
 pub fn run_section_edges() -> Sweep {
     let lens = [1usize, 3, 4, 7, 8, 9, 12, 15, 16];
@@ -455,6 +499,7 @@ pub fn sweeps(ctx: &Ctx) -> Vec<Sweep> {
     v.push(run_unknown_types());
     v.push(run_empty_and_truncated());
     v.push(run_section_edges());
+    v.push(run_entry_geometry());
     v
 }
 
